@@ -54,6 +54,7 @@ var c10Progs = map[string]string{
 	"match":  `BEGIN { r = match(s, re); printf "%d\001%d\001%d\001%s\001", r, RSTART, RLENGTH, substr(s, RSTART, RLENGTH) }`,
 	"sub": `BEGIN { t1 = s; n1 = gsub(re, "&", t1); t2 = s; n2 = gsub(re, repl, t2); t3 = s; n3 = sub(re, repl, t3)
   printf "%d\001%s\001%d\001%s\001%d\001%s\001", n1, t1, n2, t2, n3, t3 }`,
+	"tilde": `BEGIN { printf "%d\001", (s ~ re) }`,
 	"split": `BEGIN { k = split(s, arr, sep); c = 0; for (x in arr) c++; printf "%d\001%d\001", k, c
   for (i = 1; i <= k; i++) printf "%s\002", arr[i] }`,
 }
@@ -114,7 +115,7 @@ func c10Run(k c10Case) ([]string, vh.RunResult) {
 		vars = append(vars, "m", k.M)
 	case "index":
 		vars = append(vars, "t", string(vh.Unhx(k.A)))
-	case "match":
+	case "match", "tilde":
 		vars = append(vars, "re", string(vh.Unhx(k.A)))
 	case "sub":
 		vars = append(vars, "re", string(vh.Unhx(k.A)), "repl", string(vh.Unhx(k.R)))
@@ -287,9 +288,9 @@ type c10Out struct {
 	res vh.RunResult
 }
 
-func c10Oracle(c *vh.Ctx, k c10Case, o c10Out) {
+func c10Oracle(c *vh.Ctx, k c10Case, o c10Out, replay interface{}) {
 	fail := func(what, got, want string) {
-		c.Fail(vh.Failure{Kind: "oracle", What: k.Op + ": " + what, Finding: c10Classify(k), Case: k, Got: got, Want: want})
+		c.Fail(vh.Failure{Kind: "oracle", What: k.Op + ": " + what, Finding: c10Classify(k), Case: replay, Got: got, Want: want})
 	}
 	if o.res.Panic != "" {
 		fail("the interpreter panicked: "+o.res.Panic, "", "")
@@ -299,7 +300,7 @@ func c10Oracle(c *vh.Ctx, k c10Case, o c10Out) {
 	a := vh.Unhx(k.A)
 	u := unitsOf(s, k.Chars)
 	if o.res.Err != "" {
-		if (k.Op == "match" || k.Op == "sub" || k.Op == "rsplit") && goRegex(a) == nil {
+		if (k.Op == "match" || k.Op == "sub" || k.Op == "rsplit" || k.Op == "tilde") && goRegex(a) == nil {
 			return // invalid regex: an error is the right answer
 		}
 		fail("unexpected error "+o.res.Err, "", "")
@@ -375,6 +376,19 @@ func c10Oracle(c *vh.Ctx, k c10Case, o c10Out) {
 		pb, _ := unitPos(u, loc[1])
 		if f[1] != strconv.Itoa(pa+1) || f[2] != strconv.Itoa(pb-pa) {
 			fail("RSTART/RLENGTH are not the position and length of the leftmost-longest match", f[1]+","+f[2], fmt.Sprintf("%d,%d", pa+1, pb-pa))
+		}
+	case "tilde":
+		re := goRegex(a)
+		if re == nil {
+			fail("regex rejected by Go's regexp but accepted by the interpreter", "", "")
+			return
+		}
+		want := "0"
+		if re.Match(s) {
+			want = "1"
+		}
+		if f[0] != want {
+			fail("s ~ r is not 'r matches somewhere in s'", f[0], want)
 		}
 	case "sub":
 		re := goRegex(a)
@@ -921,6 +935,7 @@ func runC10(c *vh.Ctx) {
 		"at least one separator occurs")
 	g := c10Gen{c}
 	var cases []c10Case
+	var replaySession []c10Session
 	add := func(k c10Case) {
 		for _, ch := range []bool{false, true} {
 			k.Chars = ch
@@ -930,25 +945,35 @@ func runC10(c *vh.Ctx) {
 	if c.ReplayFile != "" {
 		var rep struct {
 			Failure struct {
-				Case c10Case `json:"case"`
+				Case json.RawMessage `json:"case"`
 			} `json:"failure"`
 			Corr []struct {
-				Case c10Case `json:"case"`
+				Case json.RawMessage `json:"case"`
 			} `json:"correspondence_disagreements"`
 		}
 		b, err := os.ReadFile(c.ReplayFile)
 		if err != nil || json.Unmarshal(b, &rep) != nil {
 			panic("cannot read replay file " + c.ReplayFile)
 		}
-		if rep.Failure.Case.Op != "" {
-			cases = append(cases, rep.Failure.Case)
-		}
+		raws := []json.RawMessage{rep.Failure.Case}
 		for _, d := range rep.Corr {
-			if d.Case.Op != "" {
-				cases = append(cases, d.Case)
-			}
+			raws = append(raws, d.Case)
 		}
-		if len(cases) == 0 { // a proof-obligation replay: nothing to re-run but the fixed corpus
+		for _, raw := range raws {
+			var k c10Case
+			if len(raw) == 0 || json.Unmarshal(raw, &k) != nil || k.Op == "" {
+				continue
+			}
+			if k.Op == "session" {
+				var ss c10Session
+				if json.Unmarshal(raw, &ss) == nil {
+					replaySession = append(replaySession, ss)
+				}
+				continue
+			}
+			cases = append(cases, k)
+		}
+		if len(cases) == 0 && len(replaySession) == 0 { // a proof-obligation replay: nothing to re-run but the fixed corpus
 			for _, k := range c10Corpus() {
 				add(k)
 			}
@@ -1043,6 +1068,19 @@ func runC10(c *vh.Ctx) {
 		f, res := c10Run(cases[i])
 		outs[i] = c10Out{f, res}
 	})
+	replays := make([]interface{}, len(cases))
+	keys := make([]string, len(cases))
+	for i, k := range cases {
+		replays[i] = k
+		keys[i] = k.key()
+	}
+	// long-lived runs: many regexes / formats in one interpreter, then the same equations (session.go)
+	for _, it := range c10Sessions(c, replaySession) {
+		cases = append(cases, it.k)
+		outs = append(outs, it.o)
+		replays = append(replays, it.replay)
+		keys = append(keys, it.key)
+	}
 
 	for i, k := range cases {
 		o := outs[i]
@@ -1061,13 +1099,13 @@ func runC10(c *vh.Ctx) {
 		default:
 			c.Hit("subject:invalid-utf8")
 		}
-		c.Eval(k.key(), c10NonTrivial(c, k, o))
+		c.Eval(keys[i], c10NonTrivial(c, k, o))
 		if i%4001 == 7 {
 			c.Sample(map[string]interface{}{"case": k, "output": o.res.Out})
 		}
-		c10Oracle(c, k, o)
+		c10Oracle(c, k, o, replays[i])
 		// byte mode and character mode agree on ASCII (cases come in pairs: byte mode first)
-		if k.Chars && i > 0 && cases[i-1].key() == (func() string { kk := k; kk.Chars = false; return kk.key() })() {
+		if _, single := replays[i].(c10Case); single && k.Chars && i > 0 && cases[i-1].key() == (func() string { kk := k; kk.Chars = false; return kk.key() })() {
 			if isASCII(s, vh.Unhx(k.A), vh.Unhx(k.R)) {
 				c.Hit("ascii-pair")
 				p := outs[i-1]
@@ -1113,7 +1151,7 @@ func runC10(c *vh.Ctx) {
 				}
 				if ans[j] != w {
 					c.Fail(vh.Failure{Kind: "correspondence", What: "Lean model and real code differ on request: " + reqs[j],
-						Finding: c10ClassifyCorr(cases[i], reqs[j]), Case: cases[i], Got: w, Want: ans[j]})
+						Finding: c10ClassifyCorr(cases[i], reqs[j]), Case: replays[i], Got: w, Want: ans[j]})
 				}
 			}
 			pos = end
@@ -1166,7 +1204,7 @@ func c10NonTrivial(c *vh.Ctx, k c10Case, o c10Out) bool {
 			c.Hit("index:absent")
 		}
 		return (o.f[0] != "0" && o.f[0] != "1") || !isASCII(s, vh.Unhx(k.A))
-	case "match", "sub":
+	case "match", "sub", "tilde":
 		re := goRegex(vh.Unhx(k.A))
 		if re == nil {
 			return false
